@@ -26,7 +26,7 @@ def build_coq(clean=False, timeout=1500):
     """Full .vo build of the development (never -vos/-vok). Returns (ok, log)."""
     if clean:
         sh("make clean >/dev/null 2>&1; rm -f Makefile Makefile.conf .Makefile.d", cwd=COQ)
-    if not os.path.exists(os.path.join(COQ, "Makefile")):
+    if True:      # always: the project file may list new files (cheap; make still rebuilds by timestamps only)
         rc, out = sh("coq_makefile -f _CoqProject -o Makefile", cwd=COQ)
         if rc != 0: return False, out
     rc, out = sh(f"make -j{NPROC}", cwd=COQ, timeout=timeout)
